@@ -1053,13 +1053,17 @@ class Polyhedron(Shape3D):
         """
         old_centroid = self.centroid
         self.centroid = np.array([0, 0, 0])
-        data = self.to_json(
-            ["vertices", "faces", "centroid", "volume", "inertia_tensor"]
-        )
-        hoomd_dict = _map_dict_keys(data, key_mapping=_hoomd_dict_mapping)
-        hoomd_dict["sweep_radius"] = 0.0
-
-        self.centroid = old_centroid
+        try:
+            data = self.to_json(
+                ["vertices", "faces", "centroid", "volume", "inertia_tensor"]
+            )
+            hoomd_dict = _map_dict_keys(data, key_mapping=_hoomd_dict_mapping)
+            # Copy the geometry: the shape's own arrays move back below.
+            hoomd_dict["vertices"] = np.array(hoomd_dict["vertices"])
+            hoomd_dict["faces"] = [np.array(face) for face in hoomd_dict["faces"]]
+            hoomd_dict["sweep_radius"] = 0.0
+        finally:
+            self.centroid = old_centroid
         return hoomd_dict
 
     def save(self, filetype, filename):
